@@ -148,6 +148,7 @@ type Specs struct {
 	Abstractions map[string]*Pred // ghost name -> definition over the implementing type's fields (refinement checks)
 	Writers []WriterRule
 	Locked  []LockRule
+	Scratch map[string]bool // ghosts that are working storage of one function's proof: no frame obligations for them
 }
 
 // LockRule: in Func, every call to one of Calls happens while the mutex in field Field of the receiver is held
@@ -170,7 +171,7 @@ type WriterRule struct {
 }
 
 func newSpecs() *Specs {
-	return &Specs{Funcs: map[string]*FuncSpec{}, Ghosts: map[string]*GhostDecl{}, SFuncs: map[string]*SpecFunc{}, Preds: map[string]*Pred{}, Globals: map[string]string{}, Abstractions: map[string]*Pred{}, TypeInvs: map[string]bool{}}
+	return &Specs{Funcs: map[string]*FuncSpec{}, Ghosts: map[string]*GhostDecl{}, SFuncs: map[string]*SpecFunc{}, Preds: map[string]*Pred{}, Globals: map[string]string{}, Abstractions: map[string]*Pred{}, TypeInvs: map[string]bool{}, Scratch: map[string]bool{}}
 }
 
 var reSpecLine = regexp.MustCompile(`^//\s?@(.*)$`)
@@ -188,7 +189,7 @@ func extractSpecLines(text string) (lines []string, nums []int) {
 }
 
 var clauseKeywords = []string{"requires", "ensures", "modifies", "loop", "invariant", "decreases", "let", "fresh", "pure", "trusted", "effect", "crash", "havoc", "assume", "refines", "ghostinit", "assert", "opaque", "inline", "detail", "ghostset", "abstractas"}
-var blockKeywords = []string{"func", "invoke", "ghost", "spec", "pred", "axiom", "global", "abstraction", "writers", "typeinv", "callbackframe", "locked"}
+var blockKeywords = []string{"func", "invoke", "ghost", "spec", "pred", "axiom", "global", "abstraction", "writers", "typeinv", "callbackframe", "locked", "scratch"}
 
 func firstWord(s string) (string, string) {
 	s = strings.TrimSpace(s)
@@ -494,6 +495,9 @@ func (sp *Specs) parseSpecText(file, text, pkgPath string) {
 		case "typeinv":
 			cur = nil
 			sp.TypeInvs[strings.TrimSpace(rest)] = true
+		case "scratch":
+			cur = nil
+			sp.Scratch[strings.TrimSpace(rest)] = true
 		case "callbackframe":
 			cur = nil
 			for _, ty := range strings.Split(rest, ",") {
